@@ -680,6 +680,10 @@ SPECS["C01"]["parts"].append([dict(p) for p in SPECS["C03"]["parts"] if p["name"
 # ... and ordinary queries over the UDP listener variants whose reply path builds control messages (multi_routes, dual-stack wildcard)
 SPECS["C01"]["parts"].append([dict(p) for p in SPECS["C15"]["parts"] if p["name"] == "udp-multi-route"][0])
 
+SPECS["C03"]["parts"].append(dict(name="redis-hung", pkg="app/router", run="TestVerifC03RedisHung", go="go", engines=("report", "refdns", "env", "sched", "choice"), shards=1, gomaxprocs=4,
+                                  files={"harness/router/zz_verif_redis_test.go": "app/router/zz_verif_redis_test.go", "harness/router/zz_verif_c03redis_test.go": "app/router/zz_verif_c03redis_test.go"},
+                                  budget={"quick": 120, "thorough": 120}))
+
 # --------------------------------------------------------------------------------------------
 # Properties not (yet) claimed. Kept current: every property without a SPECS entry must be here.
 NOT_APPLICABLE = {
